@@ -17,6 +17,7 @@ type c01Scenario struct {
 	Max  int      `json:"max_ticks"`
 	Base    string `json:"base,omitempty"` // stream start offset: "" = 1000, "0", "big" = 2^32+7
 	Preempt bool  `json:"preempt,omitempty"`
+	RBuf    int   `json:"rbuf,omitempty"` // size of the buffered reader the stream is read through (0 = 4096)
 	Plan []string `json:"plan,omitempty"` // preemption plan: "<file:line>#<occurrence>" wake-up statements of syncer/output.go
 }
 
@@ -137,6 +138,30 @@ func runC01(t *testing.T, rep *mc.Reporter) {
 			mc.RunScenario(rep, scn, 1, budget, func(ch *mc.Chooser) mc.Result { return c01Exec(t, scn, ch) })
 		}
 	})
+	// ---- large arguments: a value of 20 KB (inside one read buffer) and one of 72 KB (larger than the 64 KiB
+	// replication buffer), read through a 4 KiB and through a 1 MiB buffered reader (the size the tool's
+	// channels use), followed or preceded by other items while the batch that holds them is still pending
+	for _, rbuf := range []int{0, 1 << 20} {
+		enumSeqs([]string{"wL", "wH", "w1", "t2", "mf"}, 2, func(seq []string) {
+			big := false
+			for _, s := range seq {
+				if s == "wL" || s == "wH" {
+					big = true
+				}
+			}
+			if !big {
+				return
+			}
+			for _, cfg := range quickCfgs {
+				idx++
+				if idx%nshards != shard || budget.Expired() {
+					continue
+				}
+				scn := c01Scenario{Syms: append([]string{"s0"}, seq...), Cfg: cfg, Max: 1, RBuf: rbuf}
+				mc.RunScenario(rep, scn, 1, budget, func(ch *mc.Chooser) mc.Result { return c01Exec(t, scn, ch) })
+			}
+		})
+	}
 	// ---- preemption family: default feeding schedule, every wake-up statement of syncer/output.go
 	// (close, channel send, go, Unlock, Done, Close) reached is a point at which the running
 	// goroutine may be held back until all others block; all placements of up to pbound preemptions
@@ -179,6 +204,11 @@ func c01Exec(t *testing.T, scn c01Scenario, ch *mc.Chooser) mc.Result {
 // their goroutine back until everything else has run until it blocked.
 func c01ExecPlan(t *testing.T, scn c01Scenario, ch *mc.Chooser) (res mc.Result, seen, hit []string) {
 	setBase(scn.Base)
+	hReaderBuf = 4096
+	if scn.RBuf > 0 {
+		hReaderBuf = scn.RBuf
+	}
+	defer func() { hReaderBuf = 4096 }()
 	msg := bubble(t, func() {
 		if scn.Plan != nil || scn.Preempt {
 			pre := installPreempt(scn.Plan)
